@@ -187,10 +187,47 @@ def run(prog: Program, col: Collector, refs: Refs, cat: Catalogue, rule_log: str
         "safediv": ([NEG, ZERO, POS], [ZERO, POS], "x finite, y >= 0 finite"),
         "reciprocal": ([NEG, ZERO, POS], None, "x finite (0 means +0.0)"),
     }
-    for opname, (dx, dy, text) in domains.items():
-        op, targets = _targets(prog, cat, opname)
-        if op is None:
-            col.unresolved(f"op {opname}", "op not found in the catalogue", "")
+    # the ops the program DECLARES safe: the values of SAFE_BINARY_INVERSES (whatever they are called), plus reciprocal
+    from .. import axioms
+    declared = []
+    for e in cat.table_entries("funsor.ops.op.SAFE_BINARY_INVERSES"):
+        if e.value is None or isinstance(e.key, ast.Call):
+            continue
+        vop = cat.resolve_op(e.module, e.value)
+        kab = axioms.identify(cat, cat.resolve_op(e.module, e.key)) if cat.resolve_op(e.module, e.key) is not None else None
+        if vop is None:
+            col.unresolved(f"SAFE_BINARY_INVERSES[{norm(e.key)}]", "value is not an op of the catalogue", e.loc)
+            continue
+        dom = domains["safesub"] if kab == "ADD" else domains["safediv"] if kab == "MUL" else None
+        if dom is not None:
+            declared.append((vop, dom, f"SAFE_BINARY_INVERSES[{norm(e.key)}] = {vop.var}"))
+    rec = [o for o in cat.ops.values() if o.name == "reciprocal"]
+    if rec:
+        declared.append((rec[0], domains["reciprocal"], "reciprocal"))
+    if not declared:
+        col.unresolved("SAFE_BINARY_INVERSES", "no declared safe inverse found", "")
+    for op0, (dx, dy, text), label in declared:
+        opname = op0.name
+        op, targets = _targets(prog, cat, opname, op=op0)
+        if not targets:
+            # an op without its own implementation body (operator.* default): analyse the default through dispatch
+            node = ast.parse("op(x, y)").body[0].value
+            for backend in BACKENDS:
+                if backend not in prog.modules:
+                    continue
+                for arr in (False, True):
+                    bad = None
+                    for combo in (itertools.product(dx, dy) if dy is not None else ((c,) for c in dx)):
+                        it = Interp(prog, refs, cat, backend)
+                        res = it.call_op(node, op0, [num({c}, arr) for c in combo], {}, 0)
+                        n_scen += 1
+                        if res.kind == "num" and NAN in res.cls and bad is None:
+                            bad = (combo, res)
+                    construct = f"{op0.fq}::{label} NaN-free ({'arrays' if arr else 'scalars'}) [{backend.split('.')[1]}]"
+                    if bad:
+                        col.violation(construct, f"the op declared as safe inverse is `{op0.var}`; on ({', '.join(bad[0])}) it gives {_fmt(bad[1].cls)}: the 'safe' inverse produces NaN", op0.module.loc(op0.node))
+                    else:
+                        col.ok(construct, f"no NaN on {text}", op0.module.loc(op0.node))
             continue
         for f, kinds, backend, how in targets:
             ok = True
@@ -208,6 +245,19 @@ def run(prog: Program, col: Collector, refs: Refs, cat: Catalogue, rule_log: str
             if ok:
                 col.ok(f"{f.fq}::{opname} NaN-free", f"{how}: no NaN on {text}", f.loc())
     col.cur.analysed["scenarios"] = n_scen
+    # array kernels take their finite bounds from the dtype of their operand (np.finfo(x.dtype)), not from the float64 constant
+    # sys.float_info: cast to float32 that constant overflows to inf and the clamp disappears
+    for r in cat.registrations:
+        f = r.target
+        if f is None or r.module.name not in BACKENDS or r.registry not in cat.ops or isinstance(f.node, ast.Lambda):
+            continue
+        kinds = _kinds_of(r.pattern)
+        if not kinds or not any(kinds):
+            continue
+        for n in ast.walk(f.node):
+            if isinstance(n, ast.Attribute) and (refs.resolve(n) or "").startswith("sys.float_info"):
+                col.violation(f"{f.fq}::{norm(n)}", f"the array kernel of `{cat.ops[r.registry].var}` uses the float64 constant `{norm(n)}` instead of the finfo of its operand's dtype: "
+                              "for float32 arrays the bound overflows to inf and the clamp that keeps the op NaN-free is gone", f.loc(n), rule=rule_safe)
 
 
 # ------------------------------------------------------------------ R15.10 scalar / array agreement at special values
